@@ -101,6 +101,18 @@ pub fn check(prop: &str, tier: Tier, seed: u64, known: &Known) -> CheckResult {
             }
         }
     }
+    // e2e mini-tier through the real proc-macro
+    let e2e: Option<Result<crate::runner::PartStats, String>> = match prop {
+        "C04" => Some(crate::e2e::c04_registration(seed)),
+        "C15" => Some(crate::e2e::faults_through_real_derive("C15", seed, if tier == Tier::Quick { 40 } else { 400 }, known)),
+        "C16" => Some(crate::e2e::faults_through_real_derive("C16", seed, if tier == Tier::Quick { 40 } else { 400 }, known)),
+        _ => None,
+    };
+    match e2e {
+        Some(Ok(st)) => res.parts.push(st),
+        Some(Err(e)) => res.inconclusive = Some(e),
+        None => {}
+    }
     match prop {
         "C18" => c18::run(&mut res, tier, seed, known),
         "C19" => c19::extra_parts(&mut res, tier, seed, known),
